@@ -1,9 +1,8 @@
 (* Facts about Exp/ToRows.v.
    Part A: equivariance of the export under an injective renaming of uuids.
-   Part B: decimal printing is injective; the counter loop of the readable ids terminates.
-   Part C: row ids (numbered: "1".."n"; readable: pairwise distinct).
    Part D: no uuid reaches a stripped sheet (over the regenerated exclusion table).
-   Part E: fuel and internal errors. *)
+   The row ids (decimal printing, temporary ids pairwise distinct, numbered "1".."n", readable
+   ids pairwise distinct, references resolve) are in Exp/RowIdFacts.v. *)
 From Coq Require Import String.
 From Coq Require Import List NArith Bool Arith Lia.
 From RPFT Require Import Base.Sexp Base.PyStr Base.Result Gen.Tables Exp.ToRows.
@@ -237,15 +236,21 @@ Qed.
 Lemma last_row_id_rn n sn : last_row_id (rn_node n) sn = rn_tid (last_row_id n sn).
 Proof. unfold last_row_id; cbn. rewrite map_length. reflexivity. Qed.
 
+Lemma cond_arg_rn r k : cond_arg (rn_router r) (rn_case k) = option_map rn_pv (cond_arg r k).
+Proof.
+  unfold cond_arg. cbn [sw_operand rn_router k_type rn_case].
+  destruct (str_eqb (sw_operand r) groups_operand || (has_group_case_by_name && str_eqb (k_type k) has_group_type)).
+  - rewrite case_arg1_rn. destruct (case_arg1 k); reflexivity.
+  - apply case_arg0_rn.
+Qed.
+
 Lemma case_cond_rn r k c : case_cond (rn_router r) (rn_case k) (rn_cat c) = rmap rn_cond (case_cond r k c).
 Proof.
-  unfold case_cond. cbn [sw_operand rn_router k_type rn_case c_name rn_cat].
-  destruct (str_eqb (sw_operand r) groups_operand).
-  - rewrite case_arg1_rn. destruct (case_arg1 k); reflexivity.
-  - destruct (str_eqb (sw_operand r) child_status_operand).
-    + rewrite case_arg0_rn. destruct (case_arg0 k); reflexivity.
-    + destruct (mem_str (k_type k) no_args_tests); cbn [bind]; [reflexivity|].
-      rewrite case_arg0_rn. destruct (case_arg0 k); reflexivity.
+  unfold case_cond. rewrite cond_arg_rn. cbn [sw_operand rn_router k_type rn_case c_name rn_cat].
+  destruct (str_eqb (sw_operand r) groups_operand || str_eqb (sw_operand r) child_status_operand).
+  - destruct (cond_arg r k); reflexivity.
+  - destruct (mem_str (k_type k) no_args_tests); cbn [bind]; [reflexivity|].
+    destruct (cond_arg r k); reflexivity.
 Qed.
 
 Definition rn_pc (pc : pairs U * list U) : pairs U' * list U' := (map rn_pair (fst pc), map sg (snd pc)).
@@ -631,21 +636,29 @@ Proof.
   - apply (action_rows_ok _ _ _ _ _ _ _ (node_base_pay_ok n) Hpe H).
 Qed.
 
+Lemma cond_arg_ok r k v :
+  router_ok r = true -> In k (sw_cases r) -> cond_arg r k = Some v -> pv_closed v = true.
+Proof.
+  unfold router_ok, cond_arg. intros Hr Hin H.
+  destruct (str_eqb (sw_operand r) groups_operand) eqn:Eg; cbn [orb] in *.
+  - destruct (case_arg1 k); inversion H; subst; reflexivity.
+  - rewrite forallb_forall in Hr. specialize (Hr k Hin). unfold case_ok in Hr.
+    destruct (has_group_case_by_name && str_eqb (k_type k) has_group_type) eqn:Eh.
+    + destruct (case_arg1 k); inversion H; subst; reflexivity.
+    + unfold case_arg0 in H. destruct (k_group k); [discriminate|].
+      destruct (k_args k); inversion H; subst; reflexivity.
+Qed.
+
 Lemma case_cond_ok r k c cd :
   router_ok r = true -> In k (sw_cases r) -> case_cond r k c = Ok cd -> pv_closed (cd_value cd) = true.
 Proof.
-  unfold router_ok, case_cond. intros Hr Hin H.
-  destruct (str_eqb (sw_operand r) groups_operand) eqn:Eg.
-  - destruct (case_arg1 k); inversion H; subst; reflexivity.
-  - cbn [orb] in Hr. rewrite forallb_forall in Hr. specialize (Hr k Hin).
-    assert (Ha0 : forall v, case_arg0 k = Some v -> pv_closed v = true).
-    { unfold case_arg0. destruct (k_group k); [discriminate|].
-      destruct (k_args k); intros v Hv; inversion Hv; subst; reflexivity. }
-    destruct (str_eqb (sw_operand r) child_status_operand).
-    + destruct (case_arg0 k) as [v|] eqn:E0; inversion H; subst. cbn [cd_value]. apply Ha0. reflexivity.
-    + destruct (mem_str (k_type k) no_args_tests); cbn [bind] in H.
-      * inversion H; subst; reflexivity.
-      * destruct (case_arg0 k) as [v|] eqn:E0; cbn [bind] in H; inversion H; subst. cbn [cd_value]. apply Ha0. reflexivity.
+  unfold case_cond. intros Hr Hin H.
+  destruct (str_eqb (sw_operand r) groups_operand || str_eqb (sw_operand r) child_status_operand).
+  - destruct (cond_arg r k) as [v|] eqn:E0; inversion H; subst. cbn [cd_value]. apply (cond_arg_ok _ _ _ Hr Hin E0).
+  - destruct (mem_str (k_type k) no_args_tests); cbn [bind] in H.
+    + inversion H; subst; reflexivity.
+    + destruct (cond_arg r k) as [v|] eqn:E0; cbn [bind] in H; inversion H; subst. cbn [cd_value].
+      apply (cond_arg_ok _ _ _ Hr Hin E0).
 Qed.
 
 Lemma category_pairs_ok r last cats : forall covered pc,
@@ -867,8 +880,9 @@ Proof.
   destruct (close_cells _); [|contradiction]. destruct (close_sheet _); [discriminate|contradiction].
 Qed.
 
-(* C17-2.  On flows whose has_group cases occur only in group splits, no uuid reaches a cell
-   of the stripped sheet. *)
+(* C17-2.  No uuid reaches a cell of the stripped sheet, on flows that satisfy [flow_ok]: every
+   case that carries a group uuid sits in a group split or -- on a tree with the repair, decided
+   by the regenerated probe [has_group_case_by_name] -- is a has_group case. *)
 Theorem no_uuid_in_sheet nb nodes :
   flow_ok nodes = true -> export_strip ueqb nb nodes <> Ok None.
 Proof.
@@ -877,6 +891,19 @@ Proof.
   apply (to_rows_ok _ _ _ Hf) in Et. pose proof (close_sheet_some _ Et) as Hc.
   intros H. inversion H as [H1]. contradiction.
 Qed.
+
+(* on a repaired tree the guard is the invariant of the representation, not a restriction *)
+Lemma flow_wf_ok (nodes : list (node U)) : has_group_case_by_name = true -> flow_wf nodes = true -> flow_ok nodes = true.
+Proof.
+  intros Hp. unfold flow_wf, flow_ok. rewrite !forallb_forall. intros H n Hn. specialize (H n Hn).
+  unfold node_wf in H. unfold node_ok, router_ok. destruct (n_kind n) as [d|rk r|rs cats]; try reflexivity.
+  apply orb_true_iff. right. rewrite forallb_forall in *. intros k Hk. specialize (H k Hk).
+  unfold case_wf in H. unfold case_ok. destruct (k_group k); [|reflexivity]. rewrite Hp, H. reflexivity.
+Qed.
+
+Theorem no_uuid_in_sheet_repaired nb nodes :
+  has_group_case_by_name = true -> flow_wf nodes = true -> export_strip ueqb nb nodes <> Ok None.
+Proof. intros Hp Hw. apply no_uuid_in_sheet, flow_wf_ok; assumption. Qed.
 
 End NoUuid.
 
@@ -923,7 +950,26 @@ Lemma demo_flow_ids :
   = Ok [lit "msg.hello"; lit "msg.hello.1"; lit "switch.Result"; lit "goto.msg.hello"; lit "msg.hello.2"].
 Proof. vm_compute. reflexivity. Qed.
 
-(* C17-2 refuted at full strength (without the flow_ok hypothesis) *)
+(* C17-2 at full strength (for every flow of the representation, without the restriction to
+   group splits): refuted by [leak_flow] on the unrepaired tree, holds of it on a repaired one.
+   One script for both trees. *)
+Lemma no_uuid_in_sheet_witness :
+  flow_wf leak_flow = true /\
+  if has_group_case_by_name then export_strip N.eqb false leak_flow <> Ok None
+  else export_strip N.eqb false leak_flow = Ok None.
+Proof.
+  split; [vm_compute; reflexivity|].
+  destruct has_group_case_by_name eqn:E;
+    first [ vm_compute; reflexivity
+          | let H := fresh "H" in intros H; vm_compute in H; discriminate H
+          | exfalso; vm_compute in E; discriminate E ].
+Qed.
+
+(* kept under its old name while the finding is open: the unrestricted statement is false of the
+   faithful model of the tree at hand iff the probe says "unrepaired" *)
 Lemma no_uuid_in_sheet_refuted :
-  exists nodes : list (node N), export_strip N.eqb false nodes = Ok None.
-Proof. exists leak_flow. vm_compute. reflexivity. Qed.
+  has_group_case_by_name = false ->
+  exists nodes : list (node N), flow_wf nodes = true /\ export_strip N.eqb false nodes = Ok None.
+Proof.
+  intros Hp. exists leak_flow. destruct no_uuid_in_sheet_witness as [Hw Hl]. rewrite Hp in Hl. split; assumption.
+Qed.
